@@ -136,3 +136,5 @@ const (
 
 func Quiesce()            { time.Sleep(2 * time.Millisecond) }
 func LiveLibThreads() int { return 0 }
+
+func SetMapOrderDesc(desc bool) {}
